@@ -158,7 +158,20 @@ fn call_io(thread: &RootedThread, name: &str, src: &str, arg: &Val, concurrent: 
 
 const RECV_SRC: &str = "let ch = import! std.channel.prim\n\\r -> ch.recv r\n";
 
-fn perform(thread: &RootedThread, op: &Value, id: &str, concurrent: bool, chan: Option<&Chan>) -> String {
+/// A heap value created by (and living in the heap of) `root`
+fn make_root_value(root: &RootedThread, id: &str, n: u64) -> Result<Val, Violation> {
+    let src = format!(
+        "let array = import! std.array.prim\n(rec let mk n acc = if n #Int< 1 then acc else mk (n #Int- 1) (array.append acc [n]) in mk {} [0])\n",
+        n
+    );
+    match exec::drive(root.run_expr_async::<OpaqueValue<RootedThread, Hole>>(&format!("mk_{}", id), &src), 10_000_000, |_| {}) {
+        exec::Outcome::Ready(Ok((v, _)), _) => Ok(v.into_inner()),
+        exec::Outcome::Ready(Err(e), _) => Err(Violation::new("harness", format!("root value creation failed: {}", e))),
+        _ => Err(Violation::new("harness", "root value creation did not complete")),
+    }
+}
+
+fn perform(thread: &RootedThread, op: &Value, id: &str, concurrent: bool, chan: Option<&Chan>, arg: Option<Val>) -> String {
     let kind = op["op"].as_str().unwrap_or("");
     let src = op["src"].as_str().unwrap_or("0");
     macro_rules! wait {
@@ -203,6 +216,32 @@ fn perform(thread: &RootedThread, op: &Value, id: &str, concurrent: bool, chan: 
             thread.collect();
             "collected".to_string()
         }
+        "rootarg" => {
+            // a function of this (child) thread is called with a value that lives in the root
+            // thread's heap; the host's own handle is consumed by the call, so while the function
+            // runs only this thread's stack keeps the value alive (the root's collector has to
+            // find it there: Roots::mark_child_roots)
+            use gluon::vm::api::{Getable, OwnedFunction};
+            let Some(arg) = arg else { return "nop".to_string() };
+            let rounds = op["rounds"].as_u64().unwrap_or(10);
+            let src = format!(
+                "let array = import! std.array.prim\n\\a -> (rec let loop r acc = if r #Int< 1 then acc else loop (r #Int- 1) (acc #Int+ array.len a #Int+ array.index a 1) in loop {} 0)\n",
+                rounds
+            );
+            let fname = format!("ra_{}", id);
+            let f = match wait!(thread.run_expr_async::<OpaqueValue<RootedThread, Hole>>(&fname, &src)) {
+                Some(Ok((f, _))) => f,
+                Some(Err(e)) => return classify(&e),
+                None => return "HANG".to_string(),
+            };
+            let mut f: OwnedFunction<fn(OpaqueValue<RootedThread, Hole>) -> OpaqueValue<RootedThread, Hole>> =
+                Getable::from_value(thread, f.get_variant());
+            match wait!(f.call_async(OpaqueValue::from_value(arg))) {
+                Some(Ok(v)) => format!("OK {}", render::render(v.get_variant())),
+                Some(Err(e)) => format!("ERR call {}", e.to_string().lines().next().unwrap_or("")),
+                None => "HANG".to_string(),
+            }
+        }
         "send" => {
             let Some(chan) = chan else { return "nop".to_string() };
             let mut out = Vec::new();
@@ -238,7 +277,7 @@ impl Engine for C14 {
 
     fn info(&self) -> EngineInfo {
         EngineInfo {
-            rule: "one run = one VM built with the simulator's spawner (every import task becomes a logical thread), a pool of 3-8 inline modules with a random import DAG (bodies tick the harness counter, some allocate), and 2-6 logical threads (real OS threads under the token-passing scheduler), each owning a sibling gluon thread (or the root thread) and performing 1-3 operations: run_expr_async of a program importing an overlapping subset, load_script_async of a new module, typecheck_str_async, an allocation burst (generated program), an explicit collect (the root collecting locks and marks every child), get_global of a pool module; in half of the runs also channel traffic: one channel created by the root thread whose two ends are handed (as host handles pushed as function arguments) to every logical thread, which send 1-3 tagged arrays (deep-cloned into the root's heap from the sending OS thread) or poll recv 1-3 times (in two thirds of those runs the root thread itself stays idle, because a running/collecting root deadlocks against children using its channel: recorded finding). Scheduling points: every instrumented lock acquisition (context, child_threads, global gc, import compiler mutex) with try_lock probing, every k-th CALL debug-hook event inside running bytecode (while the context lock is held), every Pending of a logical thread, every spawn; forced collections in addition. Oracles: each operation's outcome equals the outcome of the same operation executed alone on a fresh VM; every module body ticks at most once; no logical thread panics; no freed object is dereferenced or reachable at quiescence; a state where no logical thread can run is a deadlock (exact under token passing); channel: the multiset of values received concurrently plus the values drained by the host at quiescence equals the multiset of values whose send was acknowledged, the values of one sender arrive in sending order at any one receiver, recv on an empty channel answers Err () (never blocks). Non-trivial = at least 10 context switches and at least two threads importing a common module; distinct = distinct hash of the context switch sequence.",
+            rule: "one run = one VM built with the simulator's spawner (every import task becomes a logical thread), a pool of 3-8 inline modules with a random import DAG (bodies tick the harness counter, some allocate), and 2-6 (thorough tier: 2-16) logical threads (real OS threads under the token-passing scheduler), each owning a sibling gluon thread (or the root thread) and performing 1-3 operations: run_expr_async of a program importing an overlapping subset, load_script_async of a new module, typecheck_str_async, an allocation burst (generated program), an explicit collect (the root collecting locks and marks every child), get_global of a pool module; in half of the runs also channel traffic: one channel created by the root thread whose two ends are handed (as host handles pushed as function arguments) to every logical thread, which send 1-3 tagged arrays (deep-cloned into the root's heap from the sending OS thread) or poll recv 1-3 times (in two thirds of those runs the root thread itself stays idle, because a running/collecting root deadlocks against children using its channel: recorded finding). Scheduling points: every instrumented lock acquisition (context, child_threads, global gc, import compiler mutex) with try_lock probing, every k-th CALL debug-hook event inside running bytecode (while the context lock is held), every Pending of a logical thread, every spawn; forced collections in addition. Oracles: each operation's outcome equals the outcome of the same operation executed alone on a fresh VM; every module body ticks at most once; no logical thread panics; no freed object is dereferenced or reachable at quiescence; a state where no logical thread can run is a deadlock (exact under token passing); channel: the multiset of values received concurrently plus the values drained by the host at quiescence equals the multiset of values whose send was acknowledged, the values of one sender arrive in sending order at any one receiver, recv on an empty channel answers Err () (never blocks). Non-trivial = at least 10 context switches and at least two threads importing a common module; distinct = distinct hash of the context switch sequence.",
             real: vec!["Thread::context locking, mark_child_roots, new_thread, Import (compiler mutex, fork/snapshot), salsa query sharing between forks (in-progress query awaited through oneshot), global_inner promotion to the global heap, new_global_thunk, interpreter, Gc of every thread, tokio::sync::oneshot (as a plain data structure)"],
             stubbed: vec!["OS scheduler (token passing: one runnable OS thread at a time, next holder from the tape)", "executor and Spawn implementation (simulator's block_on, one logical thread per spawned task = unbounded pool)", "wakers"],
             not_exercised: vec!["tokio runtime", "interleavings between two scheduling points (instruction-level races)", "locks inside gluon-salsa/parking_lot are not scheduling points: a wait there with the holder parked stalls the run and is reported as a harness stall (exit 2), never as a violation", "changing a module's text concurrently (needs salsa's exclusive revision lock)"],
@@ -253,7 +292,7 @@ impl Engine for C14 {
         }
     }
 
-    fn generate(&self, rng: &mut Rng, _tier: &str) -> Value {
+    fn generate(&self, rng: &mut Rng, tier: &str) -> Value {
         let nmods = 3 + rng.below(6);
         let mut modules = Vec::new();
         for i in 0..nmods {
@@ -265,7 +304,11 @@ impl Engine for C14 {
             }
             modules.push(json!(module_source(i, rng.range(0, 50), &deps, rng.chance(1, 3))));
         }
-        let nthreads = *rng.pick(&[2usize, 2, 3, 3, 4, 6]);
+        let nthreads = if tier == "thorough" {
+            *rng.pick(&[2usize, 2, 3, 3, 4, 6, 8, 12, 16])
+        } else {
+            *rng.pick(&[2usize, 2, 3, 3, 4, 6])
+        };
         let mut threads = Vec::new();
         let mut extra = 0;
         for t in 0..nthreads {
@@ -309,12 +352,14 @@ impl Engine for C14 {
                     };
                     let src = format!("{}let io = import! std.io.prim\nlet th = import! std.thread.prim\n{}\n", gen::PREAMBLE, body);
                     ops.push(json!({ "op": "burst", "src": src, "imports": [] }));
-                } else if roll < 85 {
+                } else if roll < 83 {
                     let ty = {
                         let mut g = Gen::new(rng, 4);
                         g.data_ty(2)
                     };
                     ops.push(json!({ "op": "burst", "src": gen::program(rng, &ty, 60, 5), "imports": [] }));
+                } else if roll < 89 {
+                    ops.push(json!({ "op": "rootarg", "n": 2 + rng.below(40), "rounds": *rng.pick(&[3u64, 20, 100]) }));
                 } else if roll < 93 {
                     ops.push(json!({ "op": "collect" }));
                 } else {
@@ -399,12 +444,23 @@ impl Engine for C14 {
                 run::set_context(format!("solo reference of operation {}", id));
                 let vm = build_vm(w)?;
                 let solo_chan = if kind == "send" { Some(make_channel(&vm)?) } else { None };
+                if kind == "rootarg" && th["gthread"].as_str() == Some("root") {
+                    // only children use values of the root
+                    continue;
+                }
+                if kind == "rootarg" {
+                    let arg = make_root_value(&vm, &id, op["n"].as_u64().unwrap_or(3))?;
+                    let child = vm.new_thread().map_err(|e| Violation::new("harness", e.to_string()))?;
+                    let out = perform(&child, op, &id, false, None, Some(arg));
+                    expected.insert(id, out);
+                    continue;
+                }
                 if kind == "global" {
                     // a global exists once somebody imported it: load it first
                     let name = op["name"].as_str().unwrap_or("p0");
                     let _ = exec::drive(vm.run_expr_async::<OpaqueValue<RootedThread, Hole>>("pre", &format!("let x = import! {}\n0\n", name)), 10_000_000, |_| {});
                 }
-                let out = perform(&vm, op, &id, false, solo_chan.as_ref());
+                let out = perform(&vm, op, &id, false, solo_chan.as_ref(), None);
                 drop(solo_chan);
                 expected.insert(id, out);
             }
@@ -430,6 +486,7 @@ impl Engine for C14 {
             }
         };
         let hook_every = w["hook_every"].as_u64().unwrap_or(11).max(1);
+        let mut root_values = false;
         let results: Arc<Mutex<BTreeMap<String, String>>> = Arc::new(Mutex::new(BTreeMap::new()));
         let mut gthreads = Vec::new();
         for (t, th) in threads.iter().enumerate() {
@@ -455,16 +512,28 @@ impl Engine for C14 {
             let ops: Vec<Value> = th["ops"].as_array().cloned().unwrap_or_default();
             let results = results.clone();
             let chan = chan.clone();
+            // values of the root's heap that a child is going to use
+            let mut args: BTreeMap<usize, Val> = BTreeMap::new();
+            for (k, op) in ops.iter().enumerate() {
+                if op["op"].as_str() == Some("rootarg") && th["gthread"].as_str() != Some("root") {
+                    args.insert(k, make_root_value(&vm, &format!("{}_{}", t, k), op["n"].as_u64().unwrap_or(3))?);
+                    root_values = true;
+                }
+            }
             sched::spawn(&format!("L{}", t), move || {
                 for (k, op) in ops.iter().enumerate() {
                     let id = format!("{}_{}", t, k);
-                    let out = perform(&gthread, op, &id, true, chan.as_deref());
+                    let out = perform(&gthread, op, &id, true, chan.as_deref(), args.remove(&k));
                     results.lock().unwrap().insert(id, out);
                 }
                 drop(chan);
                 drop(gthread);
             });
         }
+        if root_values && root_runs {
+            sched::ANCESTOR_HANDLES.store(true, std::sync::atomic::Ordering::SeqCst);
+        }
+        run::count("root_values_used_by_children", root_values as u64);
         run::set_gc(GcPolicy::from_json(&w["gc"]), true);
         run::set_context("concurrent phase");
         let ok = sched::run_all();
